@@ -948,7 +948,9 @@ def rules(tier):
             # C07-eb: the scorer normalises the password before segmenting it
             ('C07.R26', _shared_rule('c13', 'r1_detector_order')),
             # a terminal file means the same values to the guesser whatever the options
-            ('C07.R27', _shared_rule('plumbing', 'terminals_stored_as_read'))]
+            ('C07.R27', _shared_rule('plumbing', 'terminals_stored_as_read')),
+            # C07-ga: the scorer's loader drops lines with probability 1.0 (single-value files)
+            ('C07.R28', _shared_rule('plumbing', 'loader_prob_verbatim'))]
 
 
 META = {
